@@ -26,6 +26,9 @@ func prepare(repo, verif string) (*load.Program, error) {
 	}
 	prog.RawID = kit.RawFuncID
 	anchorsPath := filepath.Join(verif, "anchors.json")
+	if a := os.Getenv("VCHECK_ANCHORS"); a != "" {
+		anchorsPath = a
+	}
 	if _, serr := os.Stat(anchorsPath); serr != nil {
 		exe, _ := os.Executable()
 		anchorsPath = filepath.Join(filepath.Dir(filepath.Dir(exe)), "anchors.json")
@@ -47,6 +50,21 @@ func prepare(repo, verif string) (*load.Program, error) {
 				return b, nil
 			}
 			return os.ReadFile(name)
+		}
+		if sw, ns := load.NormaliseSwitches(prog.Pkgs, read); len(sw) > 0 {
+			for k, v := range sw {
+				overlay[k] = v
+			}
+			if next, lerr := load.LoadOverlay(repo, overlay); lerr == nil {
+				next.RawID = kit.RawFuncID
+				prog = next
+				notes = append(notes, ns...)
+			} else {
+				notes = append(notes, fmt.Sprintf("switch normalisation abandoned (%v)", lerr))
+				for k := range sw {
+					delete(overlay, k)
+				}
+			}
 		}
 		for round := 0; round < 4; round++ {
 			kit.Canonical = map[string]string{}
